@@ -9,6 +9,7 @@ CONSTANTS
     CapN = 0
     Cache = 4096
     Compress = TRUE
+    ExtK = 0
     CapProbe = FALSE
     Debug = TRUE
     HookMode = "panic_start"
